@@ -903,9 +903,17 @@ def mpf_atan2(y, x, prec, rnd=round_fast):
         if y == fzero:
             return fzero
         return mpf_shift(mpf_pi(prec, rnd), -1)
-    tquo = mpf_atan(mpf_div(y, x, prec+4), prec+4)
+    # y > 0 here, so 0 < atan2(y,x) < pi: with a directed rounding mode, round
+    # every intermediate step in the direction of the final rounding
+    if rnd in (round_floor, round_down):
+        rnd2 = round_floor
+    elif rnd in (round_ceiling, round_up):
+        rnd2 = round_ceiling
+    else:
+        rnd2 = round_fast
+    tquo = mpf_atan(mpf_div(y, x, prec+4, rnd2), prec+4, rnd2)
     if xsign:
-        return mpf_add(mpf_pi(prec+4), tquo, prec, rnd)
+        return mpf_add(mpf_pi(prec+4, rnd2), tquo, prec, rnd)
     else:
         return mpf_pos(tquo, prec, rnd)
 
